@@ -18,7 +18,7 @@ import (
 func init() { Registry["C15"] = checkC15 }
 
 func checkC15(p *core.Prog, r *core.Report) {
-	r.Explanation = "Decides structural necessary conditions of the atomic-register behaviour: (R1) on every path of Lock/UnLock/wakeUpWaitLock that applies a value operation (ProcessLockData) and then answers, the reply's value argument is a GetLockData() result obtained before the operation, inside the same shard-mutex section; (R2) refusal replies are reached without ProcessLockData/ProcessRecoverLockData on the path; (R3) the operation switches of ProcessLockData and ProcessRecoverLockData have a case for every LOCK_DATA_COMMAND_TYPE_* constant; (R4) the Redis-style command names are registered identically in the leader and follower text protocols and in the converter; (R5) published value frames are immutable: no element store, copy destination or append base in the value-operation code derives from the manager's current frame (replies, undo records and the log still reference it). (R6) the pre-operation value kept for a pending request (LockData.recoverData) is read before the call that clears it, never after. (R7) the Redis-style result writers answer with an error line only on a path where the engine's result code was tested non-zero (an applied operation is never reported as refused). NOT decided: the byte surgery of each operation, numeric overflow, the Redis-style answers."
+	r.Explanation = "Decides structural necessary conditions of the atomic-register behaviour: (R1) on every path of Lock/UnLock/wakeUpWaitLock that applies a value operation (ProcessLockData) and then answers, the reply's value argument is a GetLockData() result obtained before the operation, inside the same shard-mutex section; (R2) refusal replies are reached without ProcessLockData/ProcessRecoverLockData on the path; (R3) the operation switches of ProcessLockData and ProcessRecoverLockData have a case for every LOCK_DATA_COMMAND_TYPE_* constant; (R4) the Redis-style command names are registered identically in the leader and follower text protocols and in the converter; (R5) published value frames are immutable: no element store, copy destination or append base in the value-operation code derives from the manager's current frame (replies, undo records and the log still reference it). (R6) the pre-operation value kept for a pending request (LockData.recoverData) is read before the call that clears it, never after. (R7) the Redis-style result writers answer with an error line only on a path where the engine's result code was tested non-zero (an applied operation is never reported as refused). (R8) the data frame a binary request carries is a private buffer: Stream.ReadBytesFrame returns only freshly made slices and the decoder adopts only those (the value operations keep the frame as the stored value). NOT decided: the byte surgery of each operation, numeric overflow, the Redis-style answers."
 	r.Assumptions = []string{"Go type checker and go/ssa are correct for /repo", "GetLockData returns the current frame without copying (so R5 matters)"}
 	c15R1(p, r)
 	c15R2(p, r)
@@ -27,6 +27,7 @@ func checkC15(p *core.Prog, r *core.Report) {
 	c15R5(p, r)
 	c15R6(p, r)
 	c15R7(p, r)
+	c15R8(p, r)
 }
 
 func c15R1(p *core.Prog, r *core.Report) {
@@ -365,6 +366,14 @@ func sliceOrigins(v ssa.Value, seen map[ssa.Value]bool, out map[string]bool) {
 		out["unknown"] = true
 	case *ssa.Parameter:
 		out["param "+x.Name()] = true
+	case *ssa.Extract:
+		if c, ok := x.Tuple.(*ssa.Call); ok {
+			if callee := c.Common().StaticCallee(); callee != nil {
+				out["call "+callee.Name()] = true
+				return
+			}
+		}
+		out["unknown"] = true
 	default:
 		out["unknown"] = true
 	}
@@ -648,5 +657,121 @@ func c15R7(p *core.Prog, r *core.Report) {
 	}
 	if n == 0 {
 		r.Fail("C15/R7: no error line found in any result writer")
+	}
+}
+
+// c15R8: the value operations adopt the request's data frame as the key's
+// stored value (SET, first APPEND, INCR, PUSH keep the slice). The frame must
+// therefore be a private buffer: the connection's reader hands out a freshly
+// made slice, never a window into its reusable read buffer (the next request
+// on the connection would overwrite the stored value).
+func c15R8(p *core.Prog, r *core.Report) {
+	const rule = "C15/R8"
+	r.Rule(rule, "Stream.ReadBytesFrame returns only freshly made slices (or nil), and the request decoder adopts only such a frame as the command's value", 2)
+	// origins of a slice, looking through helpers that did not exist when the rule was confirmed
+	var origins func(v ssa.Value, depth int) map[string]bool
+	origins = func(v ssa.Value, depth int) map[string]bool {
+		out := map[string]bool{}
+		sliceOrigins(v, map[ssa.Value]bool{}, out)
+		if depth > 2 {
+			return out
+		}
+		for o := range out {
+			if !strings.HasPrefix(o, "call ") {
+				continue
+			}
+			var helpers []*ssa.Function
+			all := true
+			for _, f := range p.Funcs() {
+				if f.Name() == o[5:] && core.InModule(f) {
+					helpers = append(helpers, f)
+					if !p.IsNewFunc(f) {
+						all = false
+					}
+				}
+			}
+			if len(helpers) == 0 || !all {
+				continue
+			}
+			delete(out, o)
+			for _, h := range helpers {
+				for _, b := range h.Blocks {
+					for _, ins := range b.Instrs {
+						if ret, ok := ins.(*ssa.Return); ok && len(ret.Results) > 0 {
+							for k := range origins(ret.Results[0], depth+1) {
+								out[k] = true
+							}
+						}
+					}
+				}
+			}
+		}
+		return out
+	}
+	fn := mustFunc(p, r, "server.(*Stream).ReadBytesFrame")
+	if fn != nil {
+		bad := ""
+		pos := ""
+		n := 0
+		for _, b := range fn.Blocks {
+			for _, ins := range b.Instrs {
+				ret, ok := ins.(*ssa.Return)
+				if !ok || len(ret.Results) == 0 {
+					continue
+				}
+				n++
+				out := origins(ret.Results[0], 0)
+				for o := range out {
+					if o != "fresh" && o != "nil" {
+						bad, pos = o, p.InstrPos(ins)
+					}
+				}
+			}
+		}
+		key := "server.(*Stream).ReadBytesFrame: result is a private buffer"
+		switch {
+		case n == 0:
+			r.Fail("C15/R8: ReadBytesFrame has no return")
+		case bad != "":
+			r.Violate(rule, key, pos, "the data frame returned to the request decoder may come from \""+bad+"\" instead of a freshly made slice: the value operations keep the frame as the key's stored value, so the next request read on the connection overwrites a stored value (cross-key contamination)", nil)
+		default:
+			r.Hold(rule, key, p.Pos(fn.Pos()), fmt.Sprintf("%d returns, all fresh or nil", n))
+		}
+	}
+	// adoption in the binary request decoder
+	n := 0
+	for _, f := range p.FuncsIn("server") {
+		if f.Blocks == nil || p.IsNewFunc(f) {
+			continue
+		}
+		rn := recvName(f)
+		if rn != "BinaryServerProtocol" && rn != "TransparencyBinaryServerProtocol" {
+			continue
+		}
+		for _, b := range f.Blocks {
+			for _, ins := range b.Instrs {
+				c := core.StaticCallee(ins)
+				if c == nil || c.Name() != "NewLockCommandDataFromOriginBytes" {
+					continue
+				}
+				n++
+				out := origins(core.CallArgs(ins)[0], 0)
+				key := siteKey(p, ins)
+				bad := ""
+				for o := range out {
+					if o != "fresh" && o != "nil" && o != "call ReadBytesFrame" {
+						bad = o
+					}
+				}
+				if bad == "" {
+					r.Hold(rule, key, p.InstrPos(ins), "adopts the reader's private frame")
+				} else {
+					r.Violate(rule, key, p.InstrPos(ins), "the request decoder adopts a frame from \""+bad+"\" as the command's value without copying it", nil)
+				}
+			}
+		}
+	}
+	if n == 0 {
+		r.Fail("C15/R8: no adoption site found in the binary request decoder")
 	}
 }
